@@ -9,7 +9,8 @@ from vlib import gen
 from vlib import refs_pca as rp
 from vlib.tol import close, describe, maxdiff
 
-from menpo.model import PCAModel, PCAVectorModel, GMRFVectorModel
+from menpo.model import PCAModel, PCAVectorModel, GMRFVectorModel, GMRFModel
+from menpo.shape import PointCloud
 from menpo.shape import PointCloud, UndirectedGraph, DirectedGraph, Tree
 
 PROPERTY = "C11"
@@ -333,6 +334,8 @@ def s_gmrf_case(draw):
         "seed": draw(st.integers(0, 2**31 - 1)),
         "s": draw(st.lists(gen.q(0.5, 2.0), min_size=nfeat, max_size=nfeat)),
         "mean": draw(gen.vec(nfeat, -10, 10)),
+        # vector-backed GMRFVectorModel or the PointCloud-backed GMRFModel (vertices = points, features = dims)
+        "model": draw(st.sampled_from(["vector", "vector", "object"])),
     }
 
 
@@ -427,16 +430,20 @@ def c_gmrf(case, ctx):
     edges_idx = np.cumsum([0, case["n0"]] + list(incs))
     chunks = [x[edges_idx[i] : edges_idx[i + 1]] for i in range(len(incs) + 1)]
     kw = dict(mode=mode, sparse=sparse, bias=bias, dtype=np.float64)
-    inc = GMRFVectorModel(chunks[0].copy(), graph, incremental=True, **kw)
+    obj = case.get("model", "vector") == "object"
+    ctx.event("model=%s" % ("GMRFModel" if obj else "GMRFVectorModel"))
+    as_samples = (lambda a: [PointCloud(r.reshape(g["nv"], f).copy()) for r in a]) if obj else (lambda a: a.copy())
+    cls = GMRFModel if obj else GMRFVectorModel
+    inc = cls(as_samples(chunks[0]), graph, incremental=True, **kw)
     seen = chunks[0].shape[0]
     for c in chunks[1:]:
-        inc.increment(c.copy())
+        inc.increment(as_samples(c))
         seen += c.shape[0]
         ctx.expect(inc.n_samples == seen, "gmrf.n_samples", "after %d samples n_samples=%r" % (seen, inc.n_samples))
         mv = np.asarray(inc.mean_vector, dtype=float)
         want = x[:seen].sum(axis=0) / seen
         ctx.expect(close(mv, want, atol=1e-10 * 20), "gmrf.mean_after_increment", lambda: describe(mv, want))
-    batch = GMRFVectorModel(np.vstack(chunks), build_graph(g), incremental=False, **kw)
+    batch = cls(as_samples(np.vstack(chunks)), build_graph(g), incremental=False, **kw)
 
     ctx.expect(inc.n_samples == batch.n_samples == n, "gmrf.n_samples", "%r vs batch %r (N=%d)" % (inc.n_samples, batch.n_samples, n))
     ctx.expect(
@@ -445,9 +452,9 @@ def c_gmrf(case, ctx):
         lambda: describe(inc.mean_vector, batch.mean_vector),
     )
     ctx.expect(
-        close(np.asarray(inc.mean()), x.sum(axis=0) / n, atol=1e-10 * 20),
+        close(np.asarray(inc.mean().as_vector() if obj else inc.mean()), x.sum(axis=0) / n, atol=1e-10 * 20),
         "gmrf.mean_vs_reference",
-        lambda: describe(inc.mean(), x.sum(axis=0) / n),
+        lambda: describe(inc.mean().as_vector() if obj else inc.mean(), x.sum(axis=0) / n),
     )
     pi = _dense(inc.precision, sparse, ctx, "incremental")
     pb = _dense(batch.precision, sparse, ctx, "batch")
